@@ -6,6 +6,7 @@ checks = {
  "C03": ("pipeline-sim", "4 (C03)", "deterministic simulation: seeded controller decides every channel operation of every pipeline goroutine; exact deadlock/leak census at quiescence; outputs compared with the canonical FIFO schedule"),
  "C04": ("pipeline-sim", "4 (C04)", "deterministic simulation: producers stalled after every position with quiescence detection (causality: values delivered before later inputs exist cannot depend on them); EOF-at-cut and altered-suffix differential runs for the positions that are not prompt"),
  "C05": ("pipeline-sim", "4 (C05)", "deterministic simulation: seeded schedules + end-of-stream around the strategy warm-up; count/alphabet/Hold-through-warm-up oracle on the action stream"),
+ "C14": ("pipeline-sim", "4 (C14)", "deterministic simulation: the real template renders the report as a lock-step single-task consumer of all column channels under seeded schedules; closed-channel probes on column reads, reflection drain of the column channels after the last row, exact census, rendered rows compared with the strategy's own Compute/Outcome"),
  "C16": ("pipeline-sim", "4 (C16)", "deterministic simulation: seeded schedules, independently placed ends of the input streams, capacities; exact slice-model oracle plus exact census (longer inputs consumed, outputs closed, no task left)"),
 }
 na = {
@@ -18,7 +19,6 @@ na = {
  "C11": "not claimed yet in this revision (check under construction)",
  "C12": "not claimed yet in this revision (check under construction)",
  "C13": "not claimed yet in this revision (check under construction)",
- "C14": "not claimed yet in this revision (check under construction)",
  "C15": "range/ordering of indicator values is a pure function of the inputs",
  "C17": "Ring and Bst are single-threaded in-memory data structures without I/O; an operation sequence is an input, there is no interleaving or fault to inject",
  "C18": "scale covariance is a relation between two runs on related inputs; pure function of inputs",
